@@ -69,7 +69,8 @@ package cipher
 //@   mode int
 //@   noframe
 //@   requires 0 <= unixnano(t) && unixnano(t) < 4611686018427387904
-//@   assert_call Sum256: len(arg0) == 8 && -1 <= rangeindex && rangeindex < 3 && arg0[0] == uint8(uint64(slotOf(old(unixnano(t))) + 120 * (mathint(rangeindex) - 1)) >> 56) && arg0[1] == uint8(uint64(slotOf(old(unixnano(t))) + 120 * (mathint(rangeindex) - 1)) >> 48) && arg0[2] == uint8(uint64(slotOf(old(unixnano(t))) + 120 * (mathint(rangeindex) - 1)) >> 40) && arg0[3] == uint8(uint64(slotOf(old(unixnano(t))) + 120 * (mathint(rangeindex) - 1)) >> 32) && arg0[4] == uint8(uint64(slotOf(old(unixnano(t))) + 120 * (mathint(rangeindex) - 1)) >> 24) && arg0[5] == uint8(uint64(slotOf(old(unixnano(t))) + 120 * (mathint(rangeindex) - 1)) >> 16) && arg0[6] == uint8(uint64(slotOf(old(unixnano(t))) + 120 * (mathint(rangeindex) - 1)) >> 8) && arg0[7] == uint8(uint64(slotOf(old(unixnano(t))) + 120 * (mathint(rangeindex) - 1)) >> 0)
+//@   assert_call bigEndian.PutUint64!: -1 <= rangeindex && rangeindex < 3 && arg1 == uint64(slotOf(old(unixnano(t))) + 120 * (mathint(rangeindex) - 1)) && len(arg0) == 8 && baseof(arg0) == baseof(b)
+//@   assert_call Sum256: len(arg0) == 8 && -1 <= rangeindex && rangeindex < 3 && baseof(arg0) == baseof(b) && arg0[0] == uint8(uint64(slotOf(old(unixnano(t))) + 120 * (mathint(rangeindex) - 1)) >> 56) && arg0[1] == uint8(uint64(slotOf(old(unixnano(t))) + 120 * (mathint(rangeindex) - 1)) >> 48) && arg0[2] == uint8(uint64(slotOf(old(unixnano(t))) + 120 * (mathint(rangeindex) - 1)) >> 40) && arg0[3] == uint8(uint64(slotOf(old(unixnano(t))) + 120 * (mathint(rangeindex) - 1)) >> 32) && arg0[4] == uint8(uint64(slotOf(old(unixnano(t))) + 120 * (mathint(rangeindex) - 1)) >> 24) && arg0[5] == uint8(uint64(slotOf(old(unixnano(t))) + 120 * (mathint(rangeindex) - 1)) >> 16) && arg0[6] == uint8(uint64(slotOf(old(unixnano(t))) + 120 * (mathint(rangeindex) - 1)) >> 8) && arg0[7] == uint8(uint64(slotOf(old(unixnano(t))) + 120 * (mathint(rangeindex) - 1)) >> 0)
 //@   ensures len(salts) == 3
 //@   loop 1:
 //@     invariant -1 <= rangeindex && rangeindex < 3 && len(times) == 3 && len(b) == 8 && len(salts) == rangeindex + 1
